@@ -37,3 +37,17 @@ contract('schemaless.Section.__init__',
          ensures=[Clause('self.type == type and self.name == name', carries='C17', label='type-and-name-stored'),
                   Clause('implies(data is None, len(self.data) == 0) and implies(sections is None, len(self.sections) == 0)',
                          carries='C17', label='starts-empty')])
+
+# ---- the schema-less entry point: a new context, the text read into its top section (C17) -------------------------------
+model('schemaless.Resource', fields={}, bases=['ParserResource'])
+contract('schemaless.Resource.__init__', params={'file': 'Ref[File]', 'url': ('Opt[str]', "''")},
+         ensures=[Clause('self.file == file and self.url == url', carries='C17', label='stores-file-and-url')])
+contract('schemaless.Context.__init__',
+         ensures=[Clause("fresh(self.top) and not self.top.finished and len(self.top.data) == 0 and len(self.top.sections) == 0 and "
+                         "self.top.type == '' and self.top.name == ''", carries='C17', label='a-new-empty-untyped-top-section'),
+                  Clause('len(self.sections) == 0')])
+contract('schemaless.Context.importSchemaComponent', params={'pkgname': 'str'}, modifies=['self.top.imports'],
+         ensures=[Clause('implies(pkgname in old(self.top.imports), self.top.imports == old(self.top.imports))', carries='C17',
+                         label='an-import-seen-before-is-not-recorded-twice'),
+                  Clause('implies(pkgname not in old(self.top.imports), self.top.imports == old(self.top.imports) + [pkgname])',
+                         carries='C17', label='a-new-import-is-recorded-after-the-earlier-ones')])
